@@ -242,6 +242,37 @@ func init() {
 				break
 			}
 		}
+		// C19: the header order is the Fisher-Yates arrangement of (box recipients, then symmetric
+		// recipients) under the drawn randomness; positions found with the reference receiver
+		{
+			var pos []int
+			okp := true
+			for _, sk := range unblist(c.A["bsk"]) {
+				refHeaderOnly = true
+				ro, re := refOpenSc(out, sk, nil, nil)
+				refHeaderOnly = false
+				if re != nil {
+					okp = false
+					break
+				}
+				pos = append(pos, ro.rcptIndex)
+			}
+			for i := range keys {
+				refHeaderOnly = true
+				ro, re := refOpenSc(out, nil, keys[i], ids[i])
+				refHeaderOnly = false
+				if re != nil {
+					okp = false
+					break
+				}
+				pos = append(pos, ro.rcptIndex)
+			}
+			if okp && len(pos) > 1 && len(unblist(c.A["bsk"])) == len(unblist(c.A["boxes"])) {
+				if f := shuffleOrderFailure("sc-recipient-order-not-fisher-yates", unhx(c.A["rng"]), pos); f != nil {
+					fs = append(fs, *f)
+				}
+			}
+		}
 		// C19: the sender's key and box recipients' keys are nowhere in the bytes
 		if signerPk != nil && bytes.Contains(out, signerPk) {
 			fs = append(fs, Failure{Kind: "oracle", Key: "sc-wire-contains-sender-key", Desc: "the signer's public key appears in the signcrypted bytes"})
